@@ -343,9 +343,6 @@ def resolve(sb, decoded):
     return out
 
 
-_HEX = '0123456789abcdefABCDEF'
-
-
 def _enc_all(s, upper=False):
     fmt = '%%%02X' if upper else '%%%02x'
     return ''.join(fmt % b for b in s.encode('utf-8'))
@@ -529,7 +526,7 @@ class Traversal(Suite):
     existing files are served."""
 
     name = 'traversal'
-    budget = {'quick': 16000, 'thorough': 600000}
+    budget = {'quick': 16000, 'thorough': 300000}
 
     def setup(self):
         _suite_setup(self)
@@ -634,7 +631,6 @@ class Traversal(Suite):
 
 def ref_range(kind, f, l, size):
     """-> set of acceptable outcomes: ('206', first, last) | ('416',) | ('200',) | ('400',)"""
-    ok = set()
     if kind == 'unit':
         return {('200',)}
     if kind in ('multi', 'malformed', 'missing'):
